@@ -673,6 +673,18 @@ def run(run, driver_ok=True, deep=False):  # pylint: disable=redefined-outer-nam
                 cases.append(cls_case(name, t))
     for name, data in corpus():
         cases.append(cls_case(name, data))
+    # certificate wire forms no compose() produces: 64-bit validity fields holding all-ones, values beyond 32 bits, the last
+    # second of a datetime and the values after it (gen_ssh.RAW_INPUTS)
+    from harness import gen_ssh
+    for name, gen in getattr(gen_ssh, 'RAW_INPUTS', ()):
+        for _ in range(per_class):
+            try:
+                data = bytes(gen(run.rng))
+            except Exception as exc:  # pylint: disable=broad-except
+                run.count('generator_errors', '{}:{}'.format(name, type(exc).__name__))
+                continue
+            run.count('raw_inputs', name)
+            cases.append(cls_case(name, data))
     run.sample(cases[0])
     run.sample(cases[len(cases) // 2])
     run.sample(cases[-1])
